@@ -49,9 +49,9 @@ func open(id string) bool { return runlog.IsOpen(id) || avoidEnv[id] }
 type typeFacts struct {
 	namedString      bool // D45: named string type (Unpack hangs)
 	mapOfStructOrArr bool // D31: map[string]Struct / map[string][N]T / map[string]map[..] (merging into pre-filled entries panics: map elements are not addressable)
-	ptrCollElems     bool // D42: collection elements that are pointers to slices or arrays
-	tagOnPtr         bool // D23: validate tag on a pointer-typed field (incl. *regexp.Regexp)
-	ptrToColl        bool // D30: pointer to slice / array / map anywhere
+	ptrCollElems     bool // D42: collection elements that are pointers to slices, arrays or maps (element set without re-pointering)
+	tagOnPtr         bool // D23: validate tag on a pointer-typed field (incl. *regexp.Regexp) that is non-nil in the pre-filled value
+	ptrToColl        bool // D30: pointer to slice / array / map (non-nil in the pre-filled value)
 	tagOnPtrToMap    bool // D32: validate tag on a *map field
 	mapWithValidator bool // D35: map whose element type carries validators
 	tagOnArray       bool // D41: required / nonzero on a field that is, or holds, a fixed-size array
@@ -117,7 +117,7 @@ func (f *typeFacts) scan(td *gen.TD) {
 			}
 		}
 		if sh.Elem.Kind == "ptr" {
-			if e, _ := stripPtr(sh.Elem); e.Shape().Kind == "slice" || e.Shape().Kind == "array" {
+			if e, _ := stripPtr(sh.Elem); e.Shape().Kind == "slice" || e.Shape().Kind == "array" || e.Shape().Kind == "map" {
 				f.ptrCollElems = true
 			}
 		}
@@ -152,6 +152,69 @@ func (f *typeFacts) scan(td *gen.TD) {
 	}
 }
 
+// nonNilPtrToColl reports whether the pre-filled value holds a non-nil pointer
+// to a slice, array or map.
+func nonNilPtrToColl(td *gen.TD, tv *gen.TV) bool {
+	if tv == nil || tv.Nil {
+		return false
+	}
+	sh := td.Shape()
+	switch sh.Kind {
+	case "ptr":
+		switch sh.Elem.Shape().Kind {
+		case "slice", "array", "map":
+			return true
+		}
+		return len(tv.Elems) > 0 && nonNilPtrToColl(sh.Elem, tv.Elems[0])
+	case "slice", "array", "map":
+		for _, e := range tv.Elems {
+			if nonNilPtrToColl(sh.Elem, e) {
+				return true
+			}
+		}
+	case "struct":
+		for i := range sh.Fields {
+			if i < len(tv.Elems) && nonNilPtrToColl(sh.Fields[i].T, tv.Elems[i]) {
+				return true
+			}
+		}
+	}
+	return false
+}
+
+// nonNilTaggedPtr reports whether the pre-filled value holds a non-nil pointer
+// (or regular expression) in a field that carries a validate tag.
+func nonNilTaggedPtr(td *gen.TD, tv *gen.TV) bool {
+	if tv == nil || tv.Nil {
+		return false
+	}
+	sh := td.Shape()
+	switch sh.Kind {
+	case "ptr":
+		return len(tv.Elems) > 0 && nonNilTaggedPtr(sh.Elem, tv.Elems[0])
+	case "slice", "array", "map":
+		for _, e := range tv.Elems {
+			if nonNilTaggedPtr(sh.Elem, e) {
+				return true
+			}
+		}
+	case "struct":
+		for i := range sh.Fields {
+			if i >= len(tv.Elems) || tv.Elems[i] == nil {
+				continue
+			}
+			f := &sh.Fields[i]
+			if f.Validate != "" && (f.T.Kind == "ptr" || f.T.Kind == "regexp") && !tv.Elems[i].Nil {
+				return true
+			}
+			if nonNilTaggedPtr(f.T, tv.Elems[i]) {
+				return true
+			}
+		}
+	}
+	return false
+}
+
 // avoided names the open finding whose class the case belongs to ("" if none).
 func (f *typeFacts) avoided() string {
 	for _, c := range []struct {
@@ -182,6 +245,10 @@ func showEvals(es []*eval) string {
 func runCase(c Case, r *runlog.R) error {
 	var facts typeFacts
 	facts.scan(c.T)
+	// D30 needs a non-nil pointer to a collection in the pre-filled value
+	facts.ptrToColl = facts.ptrToColl && nonNilPtrToColl(c.T, c.Pre)
+	// D23 needs a non-nil pointer in a tagged pointer field of the pre-filled value
+	facts.tagOnPtr = facts.tagOnPtr && nonNilTaggedPtr(c.T, c.Pre)
 	if id := facts.avoided(); id != "" {
 		r.Excluded(id)
 		r.Discard()
